@@ -1,9 +1,9 @@
 SPECIFICATION Spec
 CONSTANTS Channels = {1, 2}
           MaxPays = 2
-          RERANDOMIZE = FALSE
+          RERANDOMIZE = TRUE
           LEAK = FALSE
-          KEEPNONCE = FALSE
+          KEEPNONCE = TRUE
 PROPERTY NoReuse
 INVARIANT NoSecretLeak
 CHECK_DEADLOCK FALSE
